@@ -235,6 +235,19 @@ func (vc *VC) prelude() string {
 		b.WriteString(")\n")
 		b.WriteString("(declare-fun at (Int Int) Int)\n(assert (forall ((o Int) (i Int)) (! (= (at o i) (+ o i)) :pattern ((at o i)))))\n")
 		b.WriteString("(declare-fun band (Int Int) Int)\n(declare-fun bor (Int Int) Int)\n(declare-fun bxor (Int Int) Int)\n")
+		// exact bit operations on 8 bit unsigned operands (bit decomposition)
+		b.WriteString("(define-fun bitk ((x Int) (p Int)) Int (mod (div x p) 2))\n")
+		for _, op := range []struct{ name, f string }{
+			{"bxor8", "(ite (= (bitk x %d) (bitk y %d)) 0 %d)"},
+			{"band8", "(ite (and (= (bitk x %d) 1) (= (bitk y %d) 1)) %d 0)"},
+			{"bor8", "(ite (or (= (bitk x %d) 1) (= (bitk y %d) 1)) %d 0)"}} {
+			b.WriteString("(define-fun " + op.name + " ((x Int) (y Int)) Int (+")
+			for k := 0; k < 8; k++ {
+				p := 1 << k
+				b.WriteString(" " + fmt.Sprintf(op.f, p, p, p))
+			}
+			b.WriteString("))\n")
+		}
 	}
 	return b.String()
 }
